@@ -256,8 +256,19 @@ def body(case, ctx):
         g = _build(case)
         if not _check_shape(case, g, ctx):
             return
-        p, w = np.asarray(g.points, dtype=float), np.asarray(g.weights, dtype=float)
+        p, w = np.array(g.points, dtype=float), np.array(g.weights, dtype=float)
         rng = np.random.default_rng(case.get("dseed", 0))
+        # the rule is a function of (class, n, parameters) only: destroy the arrays of the grid just handed out and
+        # construct it again - nothing the caller did to the first object may show up in the second
+        try:
+            g.points[...] = 0.0
+            g.weights[...] = -1.0
+        except (ValueError, TypeError):
+            pass
+        g2 = _build(case)
+        same = np.array_equal(np.asarray(g2.points, dtype=float), p, equal_nan=True) and np.array_equal(np.asarray(g2.weights, dtype=float), w, equal_nan=True)
+        ctx.check(same, "second-construction-differs", f"{case}: constructing the same rule again after the first grid's arrays were edited gives different nodes/weights")
+        g = g2
 
         if rule in INTERP or (rule in ("TrefethenCC",) and case.get("d") == 1):
             deg = INTERP["ClenshawCurtis" if rule == "TrefethenCC" else rule](n)
